@@ -546,6 +546,23 @@ type RateUpdateFunc[T util.NumberOnly] func(prevPoints, currPoints [2]*Point[T])
 type RateMergeFunc[T util.NumberOnly] func(prevPoints [2]*Point[T], interval *hybridqp.Interval) (float64, bool)
 type RateFinalReduceFunc[T util.NumberOnly] func(firstTime int64, lastTime int64, firstValue T, lastValue T, interval *hybridqp.Interval) (float64, bool)
 
+// appendNilRowOfSingleCall completes the output row of a window that has no value. A
+// single call appends the time, the interval index and the auxiliary columns of every
+// row it produces itself (see processMiddleWindow); without them for an empty window the
+// value column gets one entry more than the chunk has rows and all following values are
+// attributed to the wrong rows.
+func appendNilRowOfSingleCall(inChunk, outChunk Chunk, auxProcessor []*AuxProcessor, index int) {
+	outChunk.AppendTime(inChunk.TimeByIndex(index))
+	outChunk.AppendIntervalIndex(outChunk.Len() - 1)
+	for j := range auxProcessor {
+		auxProcessor[j].auxHelperFunc(
+			inChunk.Column(auxProcessor[j].inOrdinal),
+			outChunk.Column(auxProcessor[j].outOrdinal),
+			index,
+		)
+	}
+}
+
 type FloatIterator struct {
 	isSingleCall bool
 	inOrdinal    int
@@ -688,6 +705,11 @@ func (r *FloatIterator) Next(ie *IteratorEndpoint, p *IteratorParams) {
 		if addIntervalLen > 0 {
 			outColumn.AppendManyNil(addIntervalLen)
 		}
+		if r.isSingleCall {
+			for i := 0; i < addIntervalLen; i++ {
+				appendNilRowOfSingleCall(inChunk, outChunk, r.auxProcessor, inChunk.IntervalIndex()[i])
+			}
+		}
 		return
 	}
 
@@ -706,6 +728,9 @@ func (r *FloatIterator) Next(ie *IteratorEndpoint, p *IteratorParams) {
 			(firstIndex != lastIndex && i == firstIndex && r.prevPoint.isNil) ||
 			(firstIndex != lastIndex && i == lastIndex && !p.sameInterval)) {
 			outColumn.AppendNil()
+			if r.isSingleCall {
+				appendNilRowOfSingleCall(inChunk, outChunk, r.auxProcessor, start)
+			}
 			continue
 		}
 		if i == firstIndex && !r.prevPoint.isNil {
@@ -861,6 +886,11 @@ func (r *IntegerIterator) Next(ie *IteratorEndpoint, p *IteratorParams) {
 		if addIntervalLen > 0 {
 			outColumn.AppendManyNil(addIntervalLen)
 		}
+		if r.isSingleCall {
+			for i := 0; i < addIntervalLen; i++ {
+				appendNilRowOfSingleCall(inChunk, outChunk, r.auxProcessor, inChunk.IntervalIndex()[i])
+			}
+		}
 		return
 	}
 
@@ -879,6 +909,9 @@ func (r *IntegerIterator) Next(ie *IteratorEndpoint, p *IteratorParams) {
 			(firstIndex != lastIndex && i == firstIndex && r.prevPoint.isNil) ||
 			(firstIndex != lastIndex && i == lastIndex && !p.sameInterval)) {
 			outColumn.AppendNil()
+			if r.isSingleCall {
+				appendNilRowOfSingleCall(inChunk, outChunk, r.auxProcessor, start)
+			}
 			continue
 		}
 		if i == firstIndex && !r.prevPoint.isNil {
@@ -1036,6 +1069,11 @@ func (r *StringIterator) Next(ie *IteratorEndpoint, p *IteratorParams) {
 		if addIntervalLen > 0 {
 			outColumn.AppendManyNil(addIntervalLen)
 		}
+		if r.isSingleCall {
+			for i := 0; i < addIntervalLen; i++ {
+				appendNilRowOfSingleCall(inChunk, outChunk, r.auxProcessor, inChunk.IntervalIndex()[i])
+			}
+		}
 		return
 	}
 
@@ -1054,6 +1092,9 @@ func (r *StringIterator) Next(ie *IteratorEndpoint, p *IteratorParams) {
 			(firstIndex != lastIndex && i == firstIndex && r.prevPoint.isNil) ||
 			(firstIndex != lastIndex && i == lastIndex && !p.sameInterval)) {
 			outColumn.AppendNil()
+			if r.isSingleCall {
+				appendNilRowOfSingleCall(inChunk, outChunk, r.auxProcessor, start)
+			}
 			continue
 		}
 		if i == firstIndex && !r.prevPoint.isNil {
@@ -1211,6 +1252,11 @@ func (r *BooleanIterator) Next(ie *IteratorEndpoint, p *IteratorParams) {
 		if addIntervalLen > 0 {
 			outColumn.AppendManyNil(addIntervalLen)
 		}
+		if r.isSingleCall {
+			for i := 0; i < addIntervalLen; i++ {
+				appendNilRowOfSingleCall(inChunk, outChunk, r.auxProcessor, inChunk.IntervalIndex()[i])
+			}
+		}
 		return
 	}
 
@@ -1229,6 +1275,9 @@ func (r *BooleanIterator) Next(ie *IteratorEndpoint, p *IteratorParams) {
 			(firstIndex != lastIndex && i == firstIndex && r.prevPoint.isNil) ||
 			(firstIndex != lastIndex && i == lastIndex && !p.sameInterval)) {
 			outColumn.AppendNil()
+			if r.isSingleCall {
+				appendNilRowOfSingleCall(inChunk, outChunk, r.auxProcessor, start)
+			}
 			continue
 		}
 		if i == firstIndex && !r.prevPoint.isNil {
